@@ -90,21 +90,21 @@ type Violation struct {
 
 // Part is the per-batch result handed to the driver.
 type Part struct {
-	ID           string           `json:"id"`
-	Batch        int              `json:"batch"`
-	Seed         int64            `json:"seed"`
-	Tier         string           `json:"tier"`
-	Evaluations  int64            `json:"evaluations"`
-	Counters     map[string]int64 `json:"counters"`
+	ID           string              `json:"id"`
+	Batch        int                 `json:"batch"`
+	Seed         int64               `json:"seed"`
+	Tier         string              `json:"tier"`
+	Evaluations  int64               `json:"evaluations"`
+	Counters     map[string]int64    `json:"counters"`
 	Sets         map[string][]string `json:"sets"` // named sets of short strings, unioned by the driver
-	Samples      []any            `json:"samples"`
-	Violations   []Violation      `json:"violations"`
-	Inconclusive []string         `json:"inconclusive"`
-	Skipped      map[string]int64 `json:"skipped"` // cases skipped because of another property's open defect
-	WallS        float64          `json:"wall_s"`
-	Exhaustive   bool             `json:"exhaustive"`
-	Notes        []string         `json:"notes"`
-	Done         bool             `json:"done"`
+	Samples      []any               `json:"samples"`
+	Violations   []Violation         `json:"violations"`
+	Inconclusive []string            `json:"inconclusive"`
+	Skipped      map[string]int64    `json:"skipped"` // cases skipped because of another property's open defect
+	WallS        float64             `json:"wall_s"`
+	Exhaustive   bool                `json:"exhaustive"`
+	Notes        []string            `json:"notes"`
+	Done         bool                `json:"done"`
 }
 
 // Rec collects what a batch observed. All methods are safe for concurrent use.
@@ -133,7 +133,11 @@ func (r *Rec) Eval() { r.mu.Lock(); r.part.Evaluations++; r.mu.Unlock() }
 func (r *Rec) EvalN(n int) { r.mu.Lock(); r.part.Evaluations += int64(n); r.mu.Unlock() }
 
 // Count adds n to a named observation counter.
-func (r *Rec) Count(name string, n int) { r.mu.Lock(); r.part.Counters[name] += int64(n); r.mu.Unlock() }
+func (r *Rec) Count(name string, n int) {
+	r.mu.Lock()
+	r.part.Counters[name] += int64(n)
+	r.mu.Unlock()
+}
 
 // Max raises a named counter to at least v.
 func (r *Rec) Max(name string, v int) {
